@@ -78,6 +78,30 @@ func (ev *tmplEval) singleDef(obj types.Object) (ast.Expr, bool) {
 	return def, n == 1 && def != nil
 }
 
+// packageVarInit: the initialiser expression of a package-level variable of the evaluated package.
+func (ev *tmplEval) packageVarInit(v *types.Var) ast.Expr {
+	for _, f := range ev.pkg.Syntax {
+		for _, d := range f.Decls {
+			gd, ok := d.(*ast.GenDecl)
+			if !ok || gd.Tok != token.VAR {
+				continue
+			}
+			for _, sp := range gd.Specs {
+				vs, ok := sp.(*ast.ValueSpec)
+				if !ok {
+					continue
+				}
+				for i, n := range vs.Names {
+					if ev.pkg.TypesInfo.Defs[n] == types.Object(v) && i < len(vs.Values) {
+						return vs.Values[i]
+					}
+				}
+			}
+		}
+	}
+	return nil
+}
+
 func isNamedPtr(t types.Type, pkgName, name string) bool {
 	if p, ok := t.(*types.Pointer); ok {
 		t = p.Elem()
@@ -113,6 +137,18 @@ func (ev *tmplEval) eval(e ast.Expr) string {
 		obj := info.Uses[x]
 		if v, ok := obj.(*types.Var); ok {
 			if v.Parent() == v.Pkg().Scope() {
+				// a package-level variable is initialised at program start, before Compile
+				// copies the options into package globals: text that reads an option there
+				// is frozen at the option's default
+				if init := ev.packageVarInit(v); init != nil {
+					t := ev.eval(init)
+					if strings.Contains(t, atom("Delim")) {
+						return atom("?option read at program start in package variable " + v.Name())
+					}
+					if !strings.Contains(t, atomOpen+"?") {
+						return t
+					}
+				}
 				return atom("?package variable " + v.Name() + " (initialised before Compile sets the options)")
 			}
 			if def, ok := ev.singleDef(v); ok {
@@ -451,6 +487,18 @@ func C08(ctx *core.Ctx) {
 			ems[i].text = indentRe.ReplaceAllString(ems[i].text, "")
 		}
 		ctx.Stat("c08_emitted_chunks_"+l.lang, len(ems))
+		// no emitted text bakes the delimiter option in at program start
+		frozen := 0
+		for _, e := range ems {
+			if strings.Contains(e.text, atomOpen+"?option read at program start") {
+				frozen++
+				ctx.Violate("C08.R2", l.pkg+"."+e.fn.Name.Name+sprintf(" › emitted text #%d reads the delimiter option when it is set", frozen), cc.V.Pos(e.pos),
+					"the emitted text comes from a package-level variable whose initialiser reads globals.TopicDelimiter: it is evaluated at program start, before Compile stores the -delim option, so this part of the output always uses the default delimiter while the rest follows the option — publisher and subscriber (or two languages) disagree for a non-default delimiter")
+			}
+		}
+		if frozen == 0 {
+			ctx.Discharge("C08.R2", l.pkg+" › no emitted text reads the delimiter at program start", "", sprintf("%d emitted chunks evaluated", len(ems)))
+		}
 		// definitions of emitted identifiers, per generating function and package-wide
 		defRe := map[string]*regexp.Regexp{
 			"go":     regexp.MustCompile(`(?m)^\s*([A-Za-z_]\w*) := (.*)$`),
